@@ -42,6 +42,8 @@ TEMPLATES = {
     "k=K1 v=INT": lambda a, b: SEQ(A("k", "=", L(a)), A("v", "=", REF("INT"))),
     "!K1 x=ID K2": lambda a, b: SEQ(("not", L(a)), A("x", "=", REF("ID")), L(b)),
     "ks+=K1 K2*": lambda a, b: SEQ(A("ks", "+=", L(a)), ("star", L(b), None, False)),
+    # one literal used both as a value of a list assignment and as a separator (and K2 as a plain match in between)
+    "ks+=K1 K2 xs+=ID[K1]": lambda a, b: SEQ(("plus", A("ks", "+=", L(a)), None, False), L(b), A("xs", "+=", REF("ID"), L(a))),
 }
 
 
